@@ -22,6 +22,10 @@ TAG = "sim.worlds.registry_objs.PoolObj"
 @api.expose
 class PoolObj:
     """pool object: every call is logged under the object's serial number in a list owned by the scenario"""
+    # Unused slots give the instances a size that hardly anything else in a run has: CPython's small-object allocator then hands
+    # the block of a pool object that has just died to the next pool object that is created - the successor lives at the dead
+    # object's address, run after run (whatever remembers objects by id() meets a stranger; see Run.do_gc).
+    __slots__ = tuple("_pad%02d" % i for i in range(31)) + ("__dict__", "__weakref__")
 
     def __init__(self, serial, log):
         self.serial = serial
